@@ -104,8 +104,8 @@ pub fn http_batch(a: &Value) -> Value {
             }
         });
         let c = HttpClientBuilder::default().request_timeout(std::time::Duration::from_secs(3)).build(format!("http://{addr}")).unwrap();
-        // spend one id so the batch does not start at 0
-        let _ = c.request::<Value, _>("warmup", rpc_params![]).await;
+        // spend 16 ids so that the batch starts at 16 (replies may then carry ids below the batch)
+        for _ in 0..16 { let _ = c.request::<Value, _>("warmup", rpc_params![]).await; }
         let mut b = BatchRequestBuilder::new();
         for _ in 0..n { b.insert("m", rpc_params![]).unwrap(); }
         let res = c.batch_request::<String>(b).await;
@@ -113,7 +113,7 @@ pub fn http_batch(a: &Value) -> Value {
             Err(e) => (false, json!({"outcome":"Err","err":e.to_string().chars().take(120).collect::<String>()})),
             Ok(r) => {
                 let entries: Vec<Result<String, i32>> = r.into_iter().map(|x| x.map_err(|e| e.code())).collect();
-                let first = 1u64; // ids: warmup used 0
+                let first = 16u64; // ids 0..15 were used by the warm-up calls
                 let mut bad = entries.len() != n;
                 for (i, e) in entries.iter().enumerate() {
                     if let Ok(v) = e { if *v != format!("answer-for-{}", first + i as u64) { bad = true; } }
